@@ -93,6 +93,9 @@ pub fn observe(c: &Case, st: &mut Stats) {
         if super::taint::dropped_states(&s.out) > 0 {
             st.inc("runs_dropping_recorded_fold_iterations", 1);
         }
+        if super::taint::unmapped_states(&s.out) > 0 {
+            st.inc("runs_leaving_lore_of_unmapped_values_unclaimed", 1);
+        }
         st.label("ret_code_classes", &format!("{:?}", s.class()));
         if let Some(v) = &s.out_v {
             let shape: Vec<u8> = crate::proj::states(v)
